@@ -201,6 +201,8 @@ def cases(draw, tier):
             fil.insert(d.int(0, len(fil)), other if d.p(50) else 'rule=%s' % other)
         case['options'] = cmd
         case['file_options'] = fil or None
+        if len(fil) >= 2 and d.p(40):
+            case['droop_split'] = d.int(1, len(fil) - 1)      # the file layer spread over two [droop ...] groups
         return dict(kind='layers', case=case)
     rule = d.choice(list(model.STATUTORY))
     case = draw(gen.election_cases(tier='quick', rules=(rule,), default_options=True))
@@ -215,6 +217,8 @@ def cases(draw, tier):
                     fil.append(file_token(name, v, d))
     case['options'] = cmd
     case['file_options'] = fil or None
+    if len(fil) >= 2 and d.p(40):
+        case['droop_split'] = d.int(1, len(fil) - 1)
     return dict(kind='immune', case=case)
 
 
